@@ -313,6 +313,26 @@ func (p *provider) findDescriptor(serviceType reflect.Type, key any) *Descriptor
 	return p.services[typeKey]
 }
 
+// isRegistered reports whether this provider's registry holds the descriptor. An output of a multi-output
+// registration may have been removed from the collection before Build while its siblings stayed.
+func (p *provider) isRegistered(d *Descriptor) bool {
+	if d == nil {
+		return false
+	}
+
+	if p.services[TypeKey{Type: d.Type, Key: d.Key}] == d {
+		return true
+	}
+
+	for _, member := range p.groups[GroupKey{Type: d.Type, Group: d.Group}] {
+		if member == d {
+			return true
+		}
+	}
+
+	return false
+}
+
 // findGroupDescriptors finds all descriptors for a specific type within a group.
 // Returns an empty slice if the type is nil, group is empty, or no services are found.
 func (p *provider) findGroupDescriptors(serviceType reflect.Type, group string) []*Descriptor {
